@@ -53,12 +53,16 @@ def job_mutant(m):
         if src.count(m["old"]) != 1:
             return {"id": m["id"], "skipped": f"pattern occurs {src.count(m['old'])} times"}
         open(path, "w").write(src.replace(m["old"], m["new"]))
-        r = run_checks(wt, out, list(m.get("breaks", [])) + list(m.get("keeps", [])))
+        r = run_checks(wt, out, list(m.get("breaks", [])) + list(m.get("keeps", [])) + list(m.get("benign", [])))
         verdict = {}
         for pid in m.get("breaks", []):
             verdict[pid] = {1: "CAUGHT", 2: "undecided", 3: "FAULT", 0: "MISSED"}.get(r[pid]["exit"], "?")
         for pid in m.get("keeps", []):
             verdict[pid] = "quiet" if r[pid]["exit"] == 0 else f"FALSE-ALARM rc={r[pid]['exit']}"
+        for pid in m.get("benign", []):
+            # a behaviour-preserving refactoring: no alarm (exit 1) and no checker fault (exit 3); exit 2 = the contract
+            # no longer attaches (e.g. a renamed local) and says so
+            verdict[pid] = {0: "quiet", 2: "quiet(undecided)"}.get(r[pid]["exit"], f"FALSE-ALARM rc={r[pid]['exit']}")
         return {"id": m["id"], "file": m["file"], "verdict": verdict, "checks": r, "note": m.get("note", "")}
     rec = with_worktree(go)
     print(rec["id"], rec.get("verdict", rec.get("skipped")), flush=True)
@@ -119,7 +123,8 @@ def main():
                 old[r["id"]] = r
             order = [m["id"] for m in json.load(open(os.path.join(ROOT, "mutants", "catalog.json")))]
             json.dump([old[i] for i in order if i in old], open(path, "w"), indent=1)
-            bad = [r["id"] for r in recs if any(v not in ("CAUGHT", "quiet") for v in r.get("verdict", {"x": "skipped"}).values())]
+            bad = [r["id"] for r in recs if any(v not in ("CAUGHT", "quiet", "quiet(undecided)")
+                                                for v in r.get("verdict", {"x": "skipped"}).values())]
             print("not as expected:", bad)
         for f in futs:
             f.result()
